@@ -235,8 +235,9 @@ func c19() {
 		run.Require("program_digests_compared", 8)
 		run.Require("targets_file_selection_recorded", 40)
 	}
+	evals += run.Counter("constants_compared_in_file_sets_executed_on_the_host") + 2*run.Counter("stub_file_sets_traced_between_markers")
 	run.Finish(evals, int64(len(distinct)),
-		"a probe program built with -tags verif for linux/amd64, linux/386 and js/wasm and executed (natively / under node): 16 constants compared with the kernel UAPI values (linux/seccomp.h, prctl.h, errno.h via gcc), four policies per syscall table compiled on each target and digests compared, Supported/SetNoNewPrivs/LoadFilter/Assemble behaviour of the stubs, strace of the wasm run; go list file selection for all targets of `go tool dist list`; distinct = (target, constant) pairs")
+		"file sets of other build targets executed on the host through an overlay (constants; stubs between marker system calls, all system calls traced); a probe program built with -tags verif for linux/amd64, linux/386 and js/wasm and executed (natively / under node): 16 constants compared with the kernel UAPI values (linux/seccomp.h, prctl.h, errno.h via gcc), four policies per syscall table compiled on each target and digests compared, Supported/SetNoNewPrivs/LoadFilter/Assemble behaviour of the stubs, strace of the wasm run; go list file selection for all targets of `go tool dist list`; distinct = (target, constant) pairs")
 }
 
 // c19CompileAsserts: for targets that cannot run here, let the compiler
